@@ -10,7 +10,7 @@ mkdir -p _seed && cp "$S/demo.py" _seed/
 git apply "$S/patch.diff" || { echo "$ID: patch does not apply"; git -C /repo worktree remove --force "$W/wt"; rm -rf "$W"; exit 3; }
 /venv/bin/python _seed/demo.py >"$W/mut.log" 2>&1; MUT=$?
 /venv/bin/python -m pytest -q -p no:cacheprovider --timeout=900 tests >"$W/tests.log" 2>&1
-TL=$(tail -1 "$W/tests.log")
+TL=$(grep -E "[0-9]+ passed" "$W/tests.log" | tail -1 | tr -d "=")
 echo "$ID: demo_clean_exit=$CLEAN demo_mutant_exit=$MUT tests: $TL"
 echo "{\"demo_clean_exit\": $CLEAN, \"demo_mutant_exit\": $MUT, \"tests_tail\": \"$TL\", \"mutant_demo_tail\": $(tail -3 "$W/mut.log" | /venv/bin/python -c 'import sys,json; print(json.dumps(sys.stdin.read()[-600:]))')}" > "$S/verified.json"
 cd /; git -C /repo worktree remove --force "$W/wt"; rm -rf "$W"
